@@ -113,11 +113,12 @@ package region
 //@   ensures[C02] r0 == m.calls[i-1]
 
 //@ func region.canDeserializeCellBlocks.DeserializeCellBlocks(m, b) (n, err)
+//@   ensures ghostat("retained", refof(b)) == 1
 //@   requires typeis(recv, "*region.multi") ==> typeis(m, "*pb.MultiResponse") && multiWF(cast(recv, "*region.multi")) && multiRespOK(cast(recv, "*region.multi"), cast(m, "*pb.MultiResponse"))
 //@   requires typeis(recv, "*hrpc.Get") ==> typeis(m, "*pb.GetResponse")
 //@   requires typeis(recv, "*hrpc.Mutate") ==> typeis(m, "*pb.MutateResponse")
 //@   requires typeis(recv, "*hrpc.Scan") ==> typeis(m, "*pb.ScanResponse")
-//@   modifies F.pb.Result.Cell, F.pb.GetResponse.Result, F.pb.MutateResponse.Result, F.pb.ScanResponse.Results, M.*pb.Result
+//@   modifies F.pb.Result.Cell, F.pb.GetResponse.Result, F.pb.MutateResponse.Result, F.pb.ScanResponse.Results, M.*pb.Result, X.retained
 //@   ensures err == nil ==> n <= len(b)
 
 //@ func region.(*multi).checkResponse
@@ -332,6 +333,9 @@ package region
 // total(cbs) = payload bytes not yet read; every chunk holds between 1 and ChunkLen payload bytes, the loop
 // ends exactly when the payload is exhausted, and the `unexpected error` panic is unreachable.
 //@ func region.(*compressor).compressCellblocks
+// (the block it returns is a buffer of its own: nothing else points into it)
+//@   ensures ghostat("retained", refof(r0)) != 1
+//@   loop 1 invariant ghostold("alloc", refof(b)) != 1
 //@   requires c != nil && c.Codec != nil && c.Codec.ChunkLen() >= 1
 //@   requires total(cbs) == uncompressedLen
 //@   modifies nothing
@@ -341,7 +345,10 @@ package region
 //@   loop 1 invariant[C15] len(b) >= 4 && be32(b) == uncompressedLen && refof(b) != refof(uncompressedBuffer)
 //@   loop 1 invariant[C15] len(uncompressedBuffer) == ite(uncompressedLen < c.Codec.ChunkLen(), uncompressedLen, c.Codec.ChunkLen())
 //@   loop 1 decreases[C15] total(cbs)
+// buffer ownership (C02): decoding a cellblock leaves the decoded cells pointing into the buffer (ghost retained[array]);
+// such a buffer must not go back to the pool - the next response would overwrite what an earlier caller is still reading
 //@ func region.freeBuffer
+//@   requires ghostat("retained", refof(b)) != 1
 //@   modifies nothing
 //@ func region.(*client).Addr
 //@   modifies nothing
